@@ -49,9 +49,14 @@ P = {
          "Sampled; UB that neither from_utf8 on the raw bytes nor a debug assertion exposes needs the Miri run of the thorough tier."),
 }
 
+FUZZ_PROPS = ["C01", "C02", "C03", "C05", "C06", "C07", "C08", "C09", "C10", "C12", "C13", "C14", "C15", "C17", "C18"]
 checks = []
 for pid in sorted(P):
     level, technique, note = P[pid]
+    if pid in FUZZ_PROPS:
+        technique += "; thorough tier adds coverage-guided fuzzing (libFuzzer + ASan) of the same generators' choice sequences with the oracle inside the target"
+    if pid in ("C13", "C19"):
+        technique += "; thorough tier replays the enumerated unsafe-boundary cases under Miri"
     checks.append({
         "property_id": pid,
         "quick_cmd": f"./check {pid} --tier quick",
